@@ -232,6 +232,30 @@ def inline_locals(f: FuncInfo, e: ast.AST | None, depth: int = 8, calls: str = "
     return T(depth).visit(copy.deepcopy(e))
 
 
+def resolve_base(f: FuncInfo, e: ast.AST, depth: int = 6) -> ast.AST:
+    """e with only the *base name* of its attribute/subscript/call chain replaced by its single local definition
+    (`bucket = q.delayed.setdefault(t, [])`; `bucket.append(m)` -> `q.delayed.setdefault(t, []).append(m)`); arguments are left alone."""
+    import copy
+
+    e = copy.deepcopy(e)
+    for _ in range(depth):
+        parent, cur = None, e
+        while isinstance(cur, (ast.Attribute, ast.Subscript, ast.Call)):
+            parent, cur = cur, (cur.func if isinstance(cur, ast.Call) else cur.value)
+        if not isinstance(cur, ast.Name) or cur.id in ("self", "cls"):
+            return e
+        one = inline_locals(f, ast.Name(id=cur.id, ctx=ast.Load()), depth=1, calls="all")
+        if isinstance(one, ast.Name) and one.id == cur.id:
+            return e
+        if parent is None:
+            e = one
+        elif isinstance(parent, ast.Call):
+            parent.func = one
+        else:
+            parent.value = one
+    return e
+
+
 def utext(f: FuncInfo, e: ast.AST | None, calls: str = "pure", awaits: bool = False) -> str:
     """unparse(e) after inlining single-definition locals (pure definitions only, unless asked otherwise)."""
     return unparse(inline_locals(f, e, calls=calls, awaits=awaits)) if e is not None else ""
